@@ -378,6 +378,40 @@ func c02Oracle(in c02In) probe.Outcome {
 			}
 		}
 	}
+	// the SK payload cut short (its length field lowered to 4 + k octets of body) and the octets behind the cut framed as one
+	// more payload of the outer chain - of a type the decoder skips, or of a supported type - by writing a generic payload header
+	// over four octets at the cut, or by inserting one: the datagram still parses as a chain, the Encrypted payload in it is too
+	// short / no longer the last one / covered by another checksum position
+	if len(w) >= 36 {
+		body := len(w) - 32
+		for k := 0; k+4 <= body; k++ {
+			if k > 72 && k < body-72 && (!in.AllFlips || in.Large) && k%53 != 0 {
+				continue
+			}
+			for _, ty := range []byte{200, 40, 49} {
+				if ty != 200 && k%4 != 0 {
+					continue
+				}
+				x := append([]byte(nil), w...)
+				x[28] = ty
+				x[30], x[31] = byte((4+k)>>8), byte(4+k)
+				rest := len(w) - (32 + k)
+				x[32+k], x[33+k], x[34+k], x[35+k] = 0, 0, byte(rest>>8), byte(rest)
+				if err := cx.tryAltered(x, "sk-cut-short+rest-framed-as-payload", in.Keys, recvI); err != nil {
+					return fail(fmt.Errorf("SK payload cut to %d body octets, the rest framed as a payload of type %d: %w", k, ty, err))
+				}
+				y := append([]byte(nil), w[:32+k]...)
+				y[28] = ty
+				y[30], y[31] = byte((4+k)>>8), byte(4+k)
+				y = append(y, 0, 0, byte((rest+4)>>8), byte(rest+4))
+				y = append(y, w[32+k:]...)
+				gen.FixHeaderLength(y)
+				if err := cx.tryAltered(y, "sk-cut-short+rest-framed-as-payload", in.Keys, recvI); err != nil {
+					return fail(fmt.Errorf("SK payload cut to %d body octets, a payload header of type %d inserted in front of the rest: %w", k, ty, err))
+				}
+			}
+		}
+	}
 	// the four header fields that say "initial request" rewritten together (exchange type IKE_SA_INIT, message id 0, responder
 	// SPI 0, flags of a request): still a protected message, still altered
 	{
